@@ -1,6 +1,9 @@
 package rules
 
 import (
+	"go/ast"
+	"go/token"
+	"go/types"
 	"strconv"
 	"strings"
 
@@ -11,4 +14,61 @@ func unq(s string) (string, error) { return strconv.Unquote(s) }
 
 func isTestFile(p *eng.Program, fi *eng.FuncInfo) bool {
 	return strings.HasSuffix(p.Fset.Position(fi.Decl.Pos()).Filename, "_test.go")
+}
+
+// resolveLocalExpr follows a plain local variable to the expression it was defined from, when the
+// variable has exactly one assignment in body (`v := expr`, one-to-one), up to three steps. Anything
+// else is returned unchanged. Used by rules that identify WHAT is compared or passed, so that hoisting
+// an operand into a local does not change the verdict.
+func resolveLocalExpr(info *types.Info, body *ast.BlockStmt, e ast.Expr) ast.Expr {
+	for step := 0; step < 3; step++ {
+		id, ok := ast.Unparen(e).(*ast.Ident)
+		if !ok {
+			return e
+		}
+		o := info.ObjectOf(id)
+		if _, isVar := o.(*types.Var); !isVar || o == nil {
+			return e
+		}
+		var rhs ast.Expr
+		n := 0
+		ast.Inspect(body, func(m ast.Node) bool {
+			switch x := m.(type) {
+			case *ast.AssignStmt:
+				for i, l := range x.Lhs {
+					if lid, ok := l.(*ast.Ident); ok && info.ObjectOf(lid) == o {
+						n++
+						if len(x.Lhs) == len(x.Rhs) {
+							rhs = x.Rhs[i]
+						} else {
+							rhs = nil
+							n++
+						}
+					}
+				}
+			case *ast.RangeStmt:
+				for _, l := range []ast.Expr{x.Key, x.Value} {
+					if lid, ok := l.(*ast.Ident); ok && info.ObjectOf(lid) == o {
+						n += 2
+					}
+				}
+			case *ast.UnaryExpr:
+				if x.Op == token.AND {
+					if lid, ok := ast.Unparen(x.X).(*ast.Ident); ok && info.ObjectOf(lid) == o {
+						n += 2
+					}
+				}
+			case *ast.IncDecStmt:
+				if lid, ok := ast.Unparen(x.X).(*ast.Ident); ok && info.ObjectOf(lid) == o {
+					n += 2
+				}
+			}
+			return true
+		})
+		if n != 1 || rhs == nil {
+			return e
+		}
+		e = rhs
+	}
+	return e
 }
